@@ -99,7 +99,7 @@ Spec == Init /\ [][Next]_vars /\ \A w \in Waiters : WF_vars(Recheck(w))
 (* Properties (C11)                                                        *)
 
 TypeOK ==
-    /\ g.count \in Nat /\ g.arrived \in Nat /\ g.canceled \in BOOLEAN /\ g.err \in Errs
+    /\ g.count \in Nat /\ g.init \in Nat /\ g.arrived \in Nat /\ g.canceled \in BOOLEAN /\ g.err \in Errs
     /\ wst  \in [Waiters -> {"idle", "parked", "woken", "done"}]
     /\ wres \in [Waiters -> {"none", "ok", "ErrGateCanceled"} \cup Errs]
 
